@@ -250,9 +250,12 @@ func runC14(c *Checker) {
 		remainingFits, remainingFitsKnown := false, false
 		for _, f := range facts {
 			switch factRel(f, func(v ssa.Value) bool { return isRemaining(v, data, off) }, func(v ssa.Value) bool { return isLoadOfField(v, fMax) }) {
-			case "<=":
+			case "<=", "<", "==":
+				// any guard that implies remainder <= max: with `<` an exact multiple ends with one
+				// more, empty, final chunk - the peer still receives exactly the message
 				remainingFits, remainingFitsKnown = true, true
-			case ">":
+			case ">", ">=":
+				// remainder >= max is what data[off:off+max] needs
 				remainingFits, remainingFitsKnown = false, true
 			}
 		}
@@ -584,6 +587,20 @@ func checkRecvAccumulator(c *Checker, recv *ssa.Function, fRecvChan, fFinal, fPa
 					underFinal = true
 				}
 			}
+		}
+		// the message handed out leaves the accumulator: no way from the append to this return avoids
+		// the reset (otherwise the next message is appended to this one)
+		if F := receiverFieldLoad(unwrapLoadAlloc(app.Call.Args[0]), g); F != nil {
+			isReset := func(in ssa.Instruction) bool {
+				st, ok := in.(*ssa.Store)
+				if !ok || !isNilConst(st.Val) {
+					return false
+				}
+				fa, ok := st.Addr.(*ssa.FieldAddr)
+				return ok && structFieldOf(fa) == F
+			}
+			c.decide(!pathExists(app, ret, isReset), "CHUNK-3", "Recv|accumulator reset with every message", instrPos(ret), "every path from the append to the success return resets "+F.Name(),
+				"Recv can return a message without resetting "+F.Name()+": the next message is appended to the one already delivered (messages are merged)")
 		}
 		c.decide(underFinal, "CHUNK-4", "Recv|message-ends-on-final-chunk", instrPos(ret), "the success return is dominated by msg.FinalChunk of the packet just received",
 			"Recv can report a message without having seen the final chunk (or on a stale flag)")
